@@ -4,6 +4,7 @@
 From Coq Require Import List String NArith Bool.
 Import ListNotations.
 Require Import Verif.Front.Indent Verif.Front.IndentProps Verif.Front.Lines Verif.Front.LinesProps Verif.Gen.LexerTables.
+Require Export Verif.Front.Current.
 Local Open Scope N_scope.
 
 (* the translator classified everything it read *)
@@ -14,8 +15,6 @@ Proof. reflexivity. Qed.
 Lemma calc_weights_are : calc_weights = [(32, 1); (9, 4)].
 Proof. reflexivity. Qed.
 
-Definition weight_of (b:N) : N := match lookup b calc_weights with Some w => w | None => 0 end.
-Definition W0 : weights := {| w_sp := weight_of 32; w_tab := weight_of 9 |}.
 
 Lemma tab_is_four_spaces : w_tab W0 = 4 * w_sp W0.
 Proof. reflexivity. Qed.
@@ -79,9 +78,6 @@ Local Close Scope string_scope.
 (* every token kind a blank line or a whole-line comment is made of - in the default mode and inside view
    bodies - is a line end for getNextToken (action: gotNewLine, spaces = 0; on the bypass list); the comment
    token has no action.  Dropping one of them from the `case` list, or changing its action, breaks this. *)
-Definition layout_token_types : list N :=
-  [tok_NEWLINE; tok_EMPTY_LINE; tok_INDENTED_COMMENT; tok_EMPTY_COMMENT; tok_E_EMPTY_LINE; tok_E_INDENTED_COMMENT].
-Definition hid (t:N) : raw := {| ty := t; hidden := true; width := 0; eof := false |}.
 
 Lemma bypass_covers_layout_tokens :
   forallb (fun t => is_eol lexer_tables (hid t)) layout_token_types = true /\
